@@ -34,6 +34,7 @@ type SpecEnv struct {
 	// of calls the CALLEE makes (a fresh non-negative integer per name, constrained by the callee's clauses), which
 	// the caller adds to its own count afterwards
 	calleeCalls map[string]string
+	localsInPost bool // evaluating the function's own ensures at a return: unknown identifiers may denote locals
 }
 
 type specError struct{ msg string }
@@ -308,7 +309,9 @@ func (e *SpecEnv) tryIdent(name string) (Val, bool) {
 	return nil, false
 }
 
-func (e *SpecEnv) allowSrcFallback() bool { return false }
+// allowSrcFallback: postconditions may name a local variable of the function (its value at the return being checked);
+// parameters, results and lets take precedence, so this only gives meaning to otherwise unknown identifiers.
+func (e *SpecEnv) allowSrcFallback() bool { return e.localsInPost }
 
 func (e *SpecEnv) derefSrc(v Val) Val {
 	if sa, ok := v.(SrcAddr); ok {
